@@ -95,8 +95,13 @@ CHECKS = {
              "ParserFns.mw_equal), else the fourth; #switch with key=value cases the value of the first case whose key equals "
              "the first argument, else the last #default value, else nothing; all trimmed; all four rules are also compared "
              "directly with Wtp.expand on generated calls. "
-             "PARTIAL: beyond the flat fragment (nested calls, parser functions, links) equality with the independent MediaWiki "
-             "reference semantics is decided per run by harness/gen_wt.py:Ref, not by a refinement theorem.",
+             "c04_calls_in_arguments_are_expanded_in_the_callers_frame: a call whose arguments hold text and flat calls to other "
+             "templates binds to each parameter the argument with every call in it replaced by that call's result, computed "
+             "where the argument stands, and instantiates the outer body with these values (compared with Wtp.expand on 400 "
+             "generated nested calls per quick run). "
+             "PARTIAL: beyond these fragments (calls in template bodies, deeper nesting, a template inside its own arguments, "
+             "links) equality with the independent MediaWiki reference semantics is decided per run by harness/gen_wt.py:Ref, "
+             "not by a refinement theorem.",
         note=TRUST + "regex-based _encode/preprocess_text/_template_to_body are glue under the diff; ASCII whitespace; "
              "parser function name table regenerated from the live module.",
         ref="DESIGN.md section 4 C04"),
